@@ -116,7 +116,8 @@ func (c02Suite) Gen(rng *Rng, tier string, w *bufio.Writer, stats *Stats) {
 		name string
 		qs   []string
 	}{{"suffix", focusedSuffixShapes()}, {"aggregate", focusedAggregateShapes()}, {"agg-traversal", focusedAggTraversalShapes()},
-		{"collect-membership", focusedCollectMembershipShapes()}, {"scope", focusedScopeShapes()}, {"path-predicate", focusedPathPredicateShapes()}, {"string-literal", focusedStringLiteralShapes()}} {
+		{"collect-membership", focusedCollectMembershipShapes()}, {"scope", focusedScopeShapes()}, {"path-predicate", focusedPathPredicateShapes()}, {"string-literal", focusedStringLiteralShapes()},
+		{"sort-keyword", focusedSortKeywordShapes()}} {
 		for _, q := range fam.qs {
 			emitFixedSeed("focused:"+fam.name, q)
 			stats.Inc("focused." + fam.name)
@@ -231,7 +232,7 @@ func (r *c02Runner) Step(t []string, raw string) string {
 		r.stats.Inc("updating")
 		return "err updating-query"
 	}
-	cy := ToSexp(model)
+	cy := refSexp(q, model) // sort directions read from the text, not from the frontend's model (harness/sortdir.go)
 
 	// the optimised translation is the REAL entry point
 	resO, terr, panicked := translateSafe(model, r.mapper, nil)
@@ -286,7 +287,7 @@ func (r *c02Runner) Step(t []string, raw string) string {
 	// the optimiser's rewritten query (what the translator walks)
 	cyopt := "nil"
 	if plan, perr := optimize.Optimize(model); perr == nil && plan.Query != nil {
-		cyopt = ToSexp(plan.Query)
+		cyopt = refSexp(q, plan.Query)
 	}
 
 	part := func(rules, lowerings bool) string {
